@@ -161,6 +161,101 @@ def runQuery (cfg : Cfg) (ft : FTab) (q : String) : String :=
     | _, _, _, _ => "bad-query"
   | _ => "bad-query"
 
+/-! ### histories on one trait: `h <I|S|A> <mode> <allowNone> <tgt> <pool> <step> …`
+  pool  `,`-separated sources (`2`, `3n`); steps: `a<j>` assign pool object j, `r<id:from:to:key:kind>`
+  register an offer now, `f<oid>@<prov>=<n|r|+>` set / clear a factory-table entry. -/
+
+/-- Object identities a history can see. -/
+inductive HV where
+  | obj (j : Nat)                                   -- pool object j
+  | none                                            -- the object None
+  | adapter (prov : List Nat) (root step : Nat)     -- built in assignment `step` from pool object `root`
+  | dflt (step : Nat)                               -- trait default created by the validator in `step`
+  | initDflt                                        -- trait default created for `old_value` (first assignment)
+  deriving DecidableEq
+
+def showHV : HV → String
+  | .obj j => s!"obj{j}"
+  | .none => "none"
+  | .adapter p r st => "chain " ++ ">".intercalate (p.map (fun i => s!"o{i}")) ++ s!"@{r}#{st}"
+  | .dflt st => s!"default#{st}"
+  | .initDflt => "default#init"
+
+structure HState where
+  offers : List OfferSpec
+  ft : FTab
+  slots : Option (Slots HV) := none
+  step : Nat := 0
+
+def setFEntry (t : FTab) (s : String) : Option FTab :=
+  match (clean s).splitOn "=" with
+  | [k, v] =>
+    match k.splitOn "@" with
+    | [o, prov] => do
+      let key := (← nat? o, ← natList? prov ".")
+      let rest := t.byKey.filter (fun kv => kv.1 != key)
+      if clean v = "+" then pure { t with byKey := rest }
+      else pure { t with byKey := rest ++ [(key, ← parseOutcome v)] }
+    | _ => none
+  | _ => none
+
+def hStep (pm : List (List Bool)) (m : List (List Nat)) (cls : String) (mode : Nat) (an : Bool) (tgt : Nat)
+    (pool : List (Nat × Bool)) (st : HState) (w : String) : HState × String :=
+  let st1 := { st with step := st.step + 1 }
+  if w.startsWith "r" then
+    match parseOffer (w.drop 1).toString with
+    | some o => ({ st1 with offers := st.offers ++ [o] }, "ok")
+    | none => (st1, "bad-step")
+  else if w.startsWith "f" then
+    match setFEntry st.ft (w.drop 1).toString with
+    | some ft => ({ st1 with ft := ft }, "ok")
+    | none => (st1, "bad-step")
+  else if w.startsWith "a" then
+    match nat? (w.drop 1).toString with
+    | none => (st1, "bad-step")
+    | some j =>
+      match pool[j]? with
+      | none => (st1, "bad-step")
+      | some (srcT, isN) =>
+        let cfg : Cfg :=
+          { provides := lookupP pm, supers := fun t => m.getD t [], groups := groupsOf (st.offers.map (·.offer)) }
+        let ft := { st.ft with ident := (st.offers.filter (·.ident)).map (·.offer.id) }
+        let f := mkFactory ft isN
+        let (ad, tr) := if validateCalls mode isN then adapt cfg f isN srcT [] tgt true else (Out.default, [])
+        let v := validateTrait mode an isN (cfg.provides srcT tgt) ad
+        let original : HV := if isN then .none else .obj j
+        match v with
+        | .error e => (st1, s!"err {e.name} {showTrace tr}")
+        | _ =>
+          let validated : HV :=
+            match v with
+            | .adapted _ [] => original          -- a chain of identity factories hands back the object itself
+            | .adapted _ p => .adapter p j st.step
+            | .default => .dflt st.step
+            | _ => original
+          if cls == "I" then
+            ({ st1 with slots := some ⟨validated, none⟩ }, s!"x={showHV validated} x_=- {showTrace tr}")
+          else
+            let sl := assignSlots (cls == "A") (cls == "S") (fun a b => a == b) st.slots .initDflt original validated
+            ({ st1 with slots := some sl },
+             s!"x={showHV sl.stored} x_={showOpt showHV sl.shadow} {showTrace tr}")
+  else (st1, "bad-step")
+
+def runHistory (pm : List (List Bool)) (m : List (List Nat)) (os : List OfferSpec) (ft : FTab)
+    (ws : List String) : String :=
+  match ws with
+  | cls :: mode :: an :: tgt :: pool :: steps =>
+    match nat? mode, nat? an, nat? tgt, (fields pool ",").mapM parseSrc with
+    | some mode, some an, some tgt, some pool =>
+      let rec go (st : HState) : List String → List String
+        | [] => []
+        | w :: ws =>
+          let (st', o) := hStep pm m cls mode (an == 1) tgt pool st w
+          o :: go st' ws
+      " / ".intercalate (go { offers := os, ft := ft } steps)
+    | _, _, _, _ => "bad-query"
+  | _ => "bad-query"
+
 def handleA (p m offers ftab queries : String) : String :=
   match parseM m, parseOffers offers, parseFTab ftab with
   | some m, some os, some ft =>
@@ -168,7 +263,10 @@ def handleA (p m offers ftab queries : String) : String :=
     let cfg : Cfg :=
       { provides := lookupP pm, supers := fun t => m.getD t [], groups := groupsOf (os.map (·.offer)) }
     let ft := { ft with ident := (os.filter (·.ident)).map (·.offer.id) }
-    " ; ".intercalate ((fields queries ";").map (runQuery cfg ft))
+    " ; ".intercalate ((fields queries ";").map (fun q =>
+      match words q with
+      | "h" :: ws => runHistory pm m os ft ws
+      | _ => runQuery cfg ft q))
   | _, _, _ => "bad-case"
 
 /-- `so`: sort `perm` with `lt i j` read off the table. -/
